@@ -751,7 +751,7 @@ def sync_alg_name(w, kind):
     if kind == SYNC_HASH:
         return HASHES[w[IDX["hash_alg"]]]["name"]
     d = w[IDX["dir"]]
-    return "%s-%s" % (CIPHERS[w[IDX["cipher_mode"]]]["name"], {ENC: "ENC", DEC: "DEC"}.get(d, "dir%d" % d))
+    return "%s-%s" % (CIPHERS[w[IDX["cipher_mode"]]]["name"], {ENC: "ENC", DEC: "DEC"}.get(d, "DIRINVALID"))
 
 
 def analyse_sync(recs, idx_map, lines, sync_model, errno_names):
@@ -799,7 +799,7 @@ def analyse_sync(recs, idx_map, lines, sync_model, errno_names):
             if not (ret == 0 and err != 0):
                 sym, why = "invalid-accepted", "invalid job not rejected: ret=%d of %d errno=%d status=%d (validation image: reject %d)" % (ret, n, err, st, exp_err)
             elif err != exp_err:
-                sym, why = "errno-%d-not-%d" % (err, exp_err), "rejected with errno %d, the validation image gives %d" % (err, exp_err)
+                sym, why = "wrong-errno", "rejected with errno %d, the validation image gives %d" % (err, exp_err)
             elif early is None and st != STATUS_INVALID_ARGS:
                 sym, why = "status", "rejected burst: status of the invalid job is %d, not IMB_STATUS_INVALID_ARGS" % st
             elif kv["desc"] or kv["arena"]:
